@@ -29,7 +29,9 @@
 (* Values: the inward value is the sequence of handlers that altered the   *)
 (* call on the way in; the outward value records who produced it (core or  *)
 (* a short-circuiting handler), the inward value it was produced from and  *)
-(* the handlers that altered it on the way out.                            *)
+(* the handlers that altered it on the way out.  When the core function    *)
+(* fails (cfg.beh.core = "fail") what travels back is its error: every     *)
+(* handler of both managers sees it as an error, none alters it.           *)
 (***************************************************************************)
 EXTENDS Integers, Sequences, FiniteSets, TLC
 
@@ -54,6 +56,8 @@ NewCall(s) ==
      inval |-> <<>>, stack |-> <<>>, outval |-> <<>>]
 
 Beh(s, h) == s.cfg.beh[h]
+\* the core function fails: what travels back is its error, which every handler sees and none alters
+CoreFails(s) == "core" \in DOMAIN s.cfg.beh /\ s.cfg.beh["core"] = "fail"
 
 \* widen the open fetch windows of every call with the lists a beginning operation may produce
 Widen(s, op) ==
@@ -111,7 +115,7 @@ PCStep(s, e) ==
             IF k.ph # "in" \/ e.seen # k.inval \/ c1 = {} \/ c2 = {} THEN {}
             ELSE {[s EXCEPT !.calls[e.call] =
                       [k EXCEPT !.cands1 = c1, !.cands2 = c2, !.w1 = FALSE, !.w2 = FALSE, !.ph = "out",
-                                !.outval = [by |-> "core", inp |-> k.inval, out |-> <<>>]]]}
+                                !.outval = [by |-> IF CoreFails(s) THEN "core-error" ELSE "core", inp |-> k.inval, out |-> <<>>]]]}
       [] e.ev = "exit" ->
             IF e.call \notin DOMAIN s.calls THEN {} ELSE
             LET k == s.calls[e.call] IN
@@ -119,7 +123,7 @@ PCStep(s, e) ==
             ELSE IF Last(k.stack) # [m |-> e.mgr, h |-> e.h] \/ e.got # k.outval THEN {}
             ELSE {[s EXCEPT !.calls[e.call] =
                       [k EXCEPT !.stack = Front(@),
-                                !.outval = IF Beh(s, e.h) = "alter" THEN [@ EXCEPT !.out = Append(@, e.h)] ELSE @]]}
+                                !.outval = IF Beh(s, e.h) = "alter" /\ @.by # "core-error" THEN [@ EXCEPT !.out = Append(@, e.h)] ELSE @]]}
       [] e.ev = "callE" ->
             IF e.call \notin DOMAIN s.calls THEN {} ELSE
             LET k == s.calls[e.call] IN
